@@ -36,6 +36,7 @@ REQUIRED = {
         'series-nonmonotone': 500,
         'series-gentle-around-a-distant-datum': 500,
         'second-passes-compared': 200,
+        'series-in-other-containers-compared': 200,
         'integer-typed-series': 200,
         'pairs-falling': 1000,
         'head-mappings-checked': 100,
@@ -176,6 +177,32 @@ def check_regrid_case(ctx, x, y, step, flags=(), source='generated'):
             rec.violation('second-pass-over-the-same-series-reports-other-crossings', {'first': [(int(k), float(v)) for k, v in out[:6]], 'second': [(int(k), float(v)) for k, v in again[:6]]}, case, 'regrid')
             return out
         rec.hit('second-passes-compared')
+    # the same record in other containers: read-only arrays, strided and big-endian views
+    if len(xa) >= 2 and rec.evaluations % 5 == 0:
+        fx, fy = np.array(x, dtype=float), np.array(y, dtype=float)
+        wide = np.empty((len(fx), 2))
+        wide[:, 0], wide[:, 1] = fx, fy
+        ro_x, ro_y = fx.copy(), fy.copy()
+        ro_x.setflags(write=False)
+        ro_y.setflags(write=False)
+        forms = [('read-only arrays', ro_x, ro_y), ('columns of one 2-d array', wide[:, 0], wide[:, 1]),
+                 ('big-endian arrays', fx.astype('>f8'), fy.astype('>f8'))]  # (regrid documents arrays: plain lists are not an input form)
+        name, ax, ay = forms[(rec.evaluations // 5) % len(forms)]
+        try:
+            other = list(rg.regrid(ax, ay, step))
+        except Exception as exc:  # pylint: disable=broad-except
+            rec.violation('series-refused-in-another-container', {'form': name, 'exception': core.describe_exception(exc)}, case, 'regrid')
+            return out
+        # same levels; positions to the accuracy of the root finder (another byte order takes
+        # another arithmetic path through numpy: last-digit differences are rounding)
+        width = float(np.max(np.abs(np.diff(fx)))) if len(fx) > 1 else 1.0
+        same = [int(k) for k, _ in other] == [int(k) for k, _ in out] and all(
+            abs(float(a) - float(b)) <= 1e-9 * max(width, 1e-300) + 4e-15 * abs(float(a)) for (_, a), (_, b) in zip(out, other))
+        if not same:
+            rec.violation('crossings-depend-on-the-container-of-the-series', {'form': name, 'plain': [(int(k), float(v)) for k, v in out[:6]],
+                                                                             'other': [(int(k), float(v)) for k, v in other[:6]]}, case, 'regrid')
+            return out
+        rec.hit('series-in-other-containers-compared')
     errs, info = oracle_regrid.check([float(v) for v in x], [float(v) for v in y], float(step), out)
     rec.hit('crossings-must', info['must'])
     rec.hit('crossings-tie-ambiguous', info['maybe'])
